@@ -3,6 +3,7 @@ package main
 import (
 	"fmt"
 	"strings"
+	"time"
 
 	"verifh/lib"
 	"verifh/luagen"
@@ -167,4 +168,32 @@ func historyGen(r *lib.Rand) []luagen.Stmt {
 		panic(fmt.Sprintf("history program does not parse: %v\n%s", err, src))
 	}
 	return prog
+}
+
+// referenceOnly: fixed programs compared with the reference evaluator alone (plain CProg cases: the VM
+// model is not consulted). Used for witnesses whose VM-model transcription is behind the Go code.
+var referenceOnlyCorpus = []string{
+	// a message handler that raises leaves the C-call depth where it was (8afd4e6): the coroutine can still yield
+	`local co = coroutine.wrap(function() emit(xpcall(function() error("a", 0) end, function(m) error("b", 0) end)); local r = coroutine.yield(1); return r + 1 end); emit(co()); emit(co(41))`,
+	`local co = coroutine.wrap(function() for i = 1, 3 do xpcall(function() local t; return t.x end, function(m) error({i}) end) end; local r = coroutine.yield(1); return r + 1 end); emit(co()); emit(co(41))`,
+}
+
+func referenceOnly(w *lib.Writer) {
+	for i, src := range referenceOnlyCorpus {
+		prog, err := luagen.ParseCorpus(src)
+		if err != nil {
+			panic(fmt.Sprintf("reference-only entry %d does not parse: %v", i, err))
+		}
+		text := luagen.PrintLua(prog)
+		out := luagen.RunIsolated(text, 20*time.Second, nil)
+		c := lib.Case{Input: map[string]any{"src": text, "mode": "reference-only", "idx": i}, Observed: out.Summary(), Class: "reference-only",
+			Nontrivial: true, KF: []string{"C05-5"}, Coq: fmt.Sprintf("CProg %s %s", luagen.CoqBlock(prog), out.Coq())}
+		if out.GoFail != "" {
+			c.Coq = "CProg [] (Outcome [] (OOk []))"
+		}
+		id := w.Add(c)
+		if out.GoFail != "" {
+			w.GoFail(id, out.GoFail)
+		}
+	}
 }
